@@ -26,7 +26,10 @@ def check_close_all(ctx: Ctx, oid: str) -> None:
             var = unparse(lp.target)
             calls = [c for s in lp.body for c in ast.walk(s) if isinstance(c, ast.Call)]
             if "self._channels" in it:
-                ok = any(callee_attr(c) == "_local_close" and unparse(c.args[0]) == var and any(k.arg == "sendonly" and repo.fold_in(k.value, f_fin) is True for k in c.keywords) for c in calls)
+                from ..util import bind_args
+                bound = [bind_args(repo, c, f"{GB}.ChannelFactory._local_close") for c in calls if callee_attr(c) == "_local_close"]
+                idp = [p_ for p_ in repo.func(f"{GB}.ChannelFactory._local_close").params() if p_ != "self"][0]
+                ok = any(idp in b and unparse(b[idp]) == var and "sendonly" in b and repo.fold_in(b["sendonly"], f_fin) is True for b in bound)
                 seen["channels"] = ok
                 ob.site(f_fin, lp, "every registered channel -> _local_close(id, sendonly=True)", ok=ok)
             elif "self._callbacks" in it:
